@@ -56,9 +56,9 @@ Theorem C01_sem_accumulate : forall f start s l,
   fold_outs (KAccum f start false false) s l = scan f (st_acc s) l.
 Proof. exact sem_accumulate. Qed.
 Theorem C01_sem_slice : forall start stop step s l,
-  fold_outs (KSlice start stop step) s l = slice_sem start step (st_n s) l.
+  fold_outs (KSlice start stop step) s l = slice_sem start stop step (st_n s) l.
 Proof. exact sem_slice. Qed.
-Theorem C01_slice_detach : forall start e step s a,
+Theorem C01_slice_detach : forall start e step s a, (e <=? st_n s) = false ->
   st_detached (upd_state (KSlice start (Some e) step) s a) = (e <=? S (st_n s)).
 Proof. exact slice_detach. Qed.
 Theorem C01_sem_partition : forall n l s buf,
@@ -101,8 +101,9 @@ Qed.
 From SZ Require Import Base.BridgeSlice.
 Theorem C01_slice_kernel_matches_source : forall start stop step s p x m, 1 <= step ->
   update (KSlice start stop step) s p x m =
-  Some ((if Gen.KSlice.gen_slice_pass (Z.of_nat (st_n s)) (Z.of_nat start) (Z.of_nat step) then [Nodes.AEmit x m] else [])
-        ++ [ASet (set_n s (S (st_n s)) (Gen.KSlice.gen_slice_done (Z.of_nat (S (st_n s))) (option_map Z.of_nat stop)))]).
+  if Gen.KSlice.gen_slice_finished (Z.of_nat (st_n s)) (option_map Z.of_nat stop) then Some [ASet s] else
+  Some (ASet (set_n s (S (st_n s)) (Gen.KSlice.gen_slice_done (Z.of_nat (S (st_n s))) (option_map Z.of_nat stop)))
+        :: (if Gen.KSlice.gen_slice_pass (Z.of_nat (st_n s)) (Z.of_nat start) (Z.of_nat step) then [Nodes.AEmit x m] else [])).
 Proof. exact bridge_slice_update. Qed.
 Print Assumptions C01_slice_kernel_matches_source.
 
